@@ -16,6 +16,9 @@ theorem repair_skip_tie : Generated.C18.repairSkipsReplacedDoc = C18.repairSkips
 /-- the liaison orders states of a property as `shard.repair` does. -/
 theorem liaison_order_tie : Generated.C18.liaisonUsesNewerThan = C18.liaisonUsesNewerThan := rfl
 theorem delete_lookup_tie : Generated.C18.deleteLookupLimitIsIdCount = true := rfl
+theorem leaf_sep_tie : Generated.C18.leafSep = C18.leafSep := rfl
+/-- `parseLeafNodeEntity` splits into at most three parts: the id keeps its separators. -/
+theorem leaf_parts_tie : Generated.C18.leafParts = C18.leafParts := rfl
 theorem doc_id_tie : Generated.C18.docIdIsEntityAndRevision = true := rfl
 
 end Banyan.Tie.C18
